@@ -112,6 +112,10 @@ func minLenInst(x *XInst) int { d, _ := minLens(x); return d }
 func genC18() []*InstCase {
 	g := &instGen{prop: "C18"}
 	shapes := sampleShapes()
+	// base + index without displacement for every kind of index register, EBP among them (as an index it needs no displacement byte)
+	for _, bi := range [][3]int{{3, 5, 1}, {1, 5, 2}, {4, 5, 1}, {0, 5, 4}, {6, 7, 1}, {2, 0, 8}, {4, 6, 2}, {7, 5, 8}} {
+		shapes = append(shapes, MemShape{ASize: 32, Base: bi[0], Index: bi[1], Scale: bi[2]})
+	}
 	var imms []int64
 	for v := int64(-140); v <= 140; v++ {
 		imms = append(imms, v)
